@@ -6,7 +6,13 @@
        scope.Contract, whose Address() is the executing frame's context address),
      - decode -> guards -> native message(s) with delegator := caller -> logs from the NEW module events
        (autoEmitEventsFromSdkEvents), "all or nothing" (an error anywhere reverts the whole call),
-     - withdrawRewards' filter (only validators whose truncated reward >= 10^decimals/1000), transfer's validator choice.
+     - withdrawRewards' filter (only validators whose truncated reward >= 10^decimals/1000), transfer's validator choice,
+     - amounts as COIN LISTS: the `amount` attribute of a module event and the rewards the distribution queriers report
+       may hold several denominations (a validator's rewards pool is filled by block rewards in the bond denom and, with
+       the permissionless MsgDepositValidatorRewardsPool, in any other denom); the precompile parses the whole list
+       (sdk.ParseCoinsNormalized) and speaks of the bond denom's amount only (Coins.AmountOf(bondDenom)),
+     - view methods as functions of the state AT THE POINT of the call, also between the state-changing calls of one
+       transaction (the contract object keeps nothing between calls but the constant metadata).
    NOT modelled (Section variables, tied to the real modules by the twin-chain driver): x/staking, x/distribution and x/bank
    themselves ([native_step], the queries), ecrecover/keccak/EIP-712 encoding ([recover], [typed_hash]), ABI decoding
    (a call arrives decoded; malformed calldata is covered by the driver's outcome classes only), gas. *)
@@ -30,6 +36,20 @@ Definition ctx_step (ctx : Z) (h : hop) : Z :=
    RunPrecompiledContract, whatever opcode reaches the precompile; its Address() is the frame's context address. *)
 Definition precompile_caller (tx_sender : Z) (path : list hop) : Z := fold_left ctx_step path tx_sender.
 
+(* ---------------------------------------------------------------- coins *)
+
+(* sdk.Coins as sdk.ParseCoinsNormalized returns them: (denomination, amount) pairs with pairwise distinct denominations.
+   Denominations are numbers; the bond denom is 0. *)
+Definition coins := list (Z * Z).
+Definition BOND : Z := 0.
+
+(* Coins.AmountOf(denom): the amount of that denomination, 0 if absent *)
+Fixpoint amount_of (d : Z) (c : coins) : Z :=
+  match c with
+  | [] => 0
+  | (d', a) :: r => if d' =? d then a else amount_of d r
+  end.
+
 (* ---------------------------------------------------------------- native side *)
 
 Inductive nmsg :=
@@ -43,13 +63,13 @@ Definition msg_delegator (m : nmsg) : Z :=
   | MsgDelegate d _ _ | MsgUndelegate d _ _ | MsgBeginRedelegate d _ _ _ | MsgWithdrawDelegatorReward d _ => d
   end.
 
-(* module events as getSdkEventsFromEventManager sees them (type + wanted attributes, amount = AmountOf(bond denom));
-   EvOther = anything the filter drops *)
+(* module events as getSdkEventsFromEventManager sees them (type + wanted attributes; the `amount` attribute parsed as
+   a coin list: a withdraw_rewards event carries every denomination paid out); EvOther = anything the filter drops *)
 Inductive nevent :=
-| EvDelegate (val del amt : Z)
-| EvUnbond (val del amt : Z)
-| EvRedelegate (src dst amt : Z)            (* the SDK's redelegate event carries no delegator *)
-| EvWithdrawRewards (val del amt : Z)
+| EvDelegate (val del : Z) (amt : coins)
+| EvUnbond (val del : Z) (amt : coins)
+| EvRedelegate (src dst : Z) (amt : coins)  (* the SDK's redelegate event carries no delegator *)
+| EvWithdrawRewards (val del : Z) (amt : coins)
 | EvOther.
 
 Definition counted (e : nevent) : bool := match e with EvOther => false | _ => true end.
@@ -59,13 +79,15 @@ Inductive log :=
 | LUndelegate (del val amt : Z)
 | LWithdrawReward (del val amt : Z).
 
-(* autoEmitEventsFromSdkEvents, per event; [d] is the `delegator` argument (used for redelegate events only) *)
+(* autoEmitEventsFromSdkEvents, per event; [d] is the `delegator` argument (used for redelegate events only).
+   `coins.AmountOf(bondDenom)`: a log carries the bond denom's amount of the event, whatever else the event carries, and
+   is left out when that amount is not positive (e.g. a withdrawal that paid out other denominations only) *)
 Definition logs_of_event (d : Z) (e : nevent) : list log :=
   match e with
-  | EvDelegate v del a => if 0 <? a then [LDelegate del v a] else []
-  | EvUnbond v del a => if 0 <? a then [LUndelegate del v a] else []
-  | EvRedelegate s t a => if 0 <? a then [LUndelegate d s a; LDelegate d t a] else []
-  | EvWithdrawRewards v del a => if 0 <? a then [LWithdrawReward del v a] else []
+  | EvDelegate v del c => let a := amount_of BOND c in if 0 <? a then [LDelegate del v a] else []
+  | EvUnbond v del c => let a := amount_of BOND c in if 0 <? a then [LUndelegate del v a] else []
+  | EvRedelegate s t c => let a := amount_of BOND c in if 0 <? a then [LUndelegate d s a; LDelegate d t a] else []
+  | EvWithdrawRewards v del c => let a := amount_of BOND c in if 0 <? a then [LWithdrawReward del v a] else []
   | EvOther => []
   end.
 
@@ -123,6 +145,19 @@ Definition pick_validator (delegated bonded : list vinfo) : option Z :=
   end.
 
 Inductive qres := QOk (z : Z) | QNoDelegation | QErr.
+(* answer of a distribution querier: the (truncated) rewards in every denomination *)
+Inductive qresc := QcOk (c : coins) | QcNoDelegation | QcErr.
+(* `.AmountOf(bondDenom).TruncateInt()` of the answer *)
+Definition bond_of (r : qresc) : qres :=
+  match r with QcOk c => QOk (amount_of BOND c) | QcNoDelegation => QNoDelegation | QcErr => QErr end.
+
+Inductive view := VDelegationOf (a v : Z) | VTotalDelegationOf (a : Z) | VRewardOf (a v : Z) | VRewardsOf (a : Z) | VBalanceOf (a : Z).
+
+(* one precompile call made by a contract in the course of a transaction: state-changing or view *)
+Inductive titem := ICall (c : call) | IView (w : view).
+(* what the transaction shows of it: whether a state-changing call succeeded and the receipt's logs it left (none when it
+   failed); the number a view call returned (None = the view call failed) *)
+Inductive tobs := TCall (ok : bool) (l : list log) | TView (r : option Z).
 
 Definition MIN_WITHDRAW : Z := 10 ^ 15.   (* minimumRewardWithdrawalAmount: 10^18 / 1000, decimals = 18 *)
 
@@ -134,9 +169,9 @@ Section Cpc.
   Variable nstate : Type.
   (* the native message servers: None = the message is rejected *)
   Variable native_step : nstate -> nmsg -> option (nstate * list nevent).
-  (* distribution querier DelegationTotalRewards as withdrawRewards() reads it: per validator the truncated bond-denom
-     amount, in the order returned, and whether the total is zero *)
-  Variable q_rewards : nstate -> Z -> list (Z * Z) * bool.
+  (* distribution querier DelegationTotalRewards as withdrawRewards() reads it: per validator the truncated rewards in
+     every denomination, in the order returned, and whether the (untruncated) total is zero *)
+  Variable q_rewards : nstate -> Z -> list (Z * coins) * bool.
   (* (the querier itself writes — it ends the current reward period of every validator the delegator is bonded to —
      but withdrawRewards() evaluates it on a discarded branch of the state, so it is a pure function of the state) *)
   Variable q_balance : nstate -> Z -> Z.                 (* bank balance, bond denom *)
@@ -191,7 +226,8 @@ Section Cpc.
     match rs with
     | [] => []
     | _ => if total_zero then []
-           else map (fun va => MsgWithdrawDelegatorReward del (fst va)) (filter (fun va => MIN_WITHDRAW <=? snd va) rs)
+           else map (fun va => MsgWithdrawDelegatorReward del (fst va))
+                    (filter (fun va => MIN_WITHDRAW <=? amount_of BOND (snd va)) rs)
     end.
 
   (* finish a call: state, events of everything it ran, logs or failure *)
@@ -320,11 +356,98 @@ Section Cpc.
       end
     else None.
 
+  (* ---------------------------------------------------------------- views *)
+  (* a native query's answer: a number (coins for the distribution queriers), the staking module's "no delegation"
+     error, any other error *)
+  Variable q_delegation_tokens : nstate -> Z -> Z -> qres. (* GetDelegation + Validator.TokensFromShares(shares).TruncateInt() *)
+  Variable q_bonded_total : nstate -> Z -> qres.            (* GetDelegatorBonded *)
+  Variable q_reward : nstate -> Z -> Z -> qresc.            (* distribution querier DelegationRewards, truncated *)
+  Variable q_rewards_total : nstate -> Z -> qresc.          (* distribution querier DelegationTotalRewards total, truncated *)
+  (* (both distribution queriers write — they end reward periods — but the view methods evaluate them on a branch of the
+     state at the point of the call which is discarded afterwards, a fresh one per call) *)
+
+  (* delegationOf and rewardOf answer 0 where the native query says "no delegation"; any other error fails the call *)
+  Definition zero_if_none (r : qres) : option Z :=
+    match r with QOk z => Some z | QNoDelegation => Some 0 | QErr => None end.
+  Definition strict (r : qres) : option Z := match r with QOk z => Some z | _ => None end.
+
+  (* None = the view call fails *)
+  Definition view_step (s : nstate) (w : view) : option Z :=
+    match w with
+    | VDelegationOf a v => zero_if_none (q_delegation_tokens s a v)
+    | VTotalDelegationOf a => strict (q_bonded_total s a)
+    | VRewardOf a v => zero_if_none (bond_of (q_reward s a v))
+    | VRewardsOf a => strict (bond_of (q_rewards_total s a))
+    | VBalanceOf a => option_map (Z.add (q_balance s a)) (strict (bond_of (q_rewards_total s a)))
+    end.
+
+  (* what the native queries say, written down independently of [view_step] (this is what the twin-chain driver asks
+     the gRPC queriers of chain B): the bond denom's amount of the answer *)
+  Definition native_view (s : nstate) (w : view) : option Z :=
+    match w with
+    | VDelegationOf a v => match q_delegation_tokens s a v with QOk z => Some z | QNoDelegation => Some 0 | QErr => None end
+    | VTotalDelegationOf a => match q_bonded_total s a with QOk z => Some z | _ => None end
+    | VRewardOf a v => match q_reward s a v with QcOk c => Some (amount_of BOND c) | QcNoDelegation => Some 0 | QcErr => None end
+    | VRewardsOf a => match q_rewards_total s a with QcOk c => Some (amount_of BOND c) | _ => None end
+    | VBalanceOf a => match q_rewards_total s a with QcOk c => Some (q_balance s a + amount_of BOND c) | _ => None end
+    end.
+
+  (* ---------------------------------------------------------------- several calls in one transaction *)
+  (* A contract (the precompile's caller) makes the calls of [items] in order and does not revert when one fails.
+     Chain A: every call runs on the state its predecessors left; a failed call leaves the state as it was; a view
+     reads the state at that point and changes nothing. *)
+  Definition item_A (s : nstate) (caller : Z) (i : titem) : nstate * tobs * list nmsg :=
+    match i with
+    | ICall c =>
+        match cpc_step s caller c with
+        | Some (s', logs, _, ms) => (s', TCall true logs, ms)
+        | None => (s, TCall false [], [])
+        end
+    | IView w => (s, TView (view_step s w), [])
+    end.
+
+  (* Chain B: the native submissions one by one, and between them the native queries; a submission counts as
+     successful when it was executed and announced by at least one staking / distribution event *)
+  Definition item_B (s : nstate) (caller : Z) (i : titem) : nstate * tobs :=
+    match i with
+    | ICall c =>
+        match native_prog s caller c with
+        | Some (s', evs, _) => (s', TCall (existsb counted evs) (flat_map (logs_of_event caller) evs))
+        | None => (s, TCall false [])
+        end
+    | IView w => (s, TView (native_view s w))
+    end.
+
+  Fixpoint tx_A (s : nstate) (caller : Z) (items : list titem) : nstate * list tobs * list nmsg :=
+    match items with
+    | [] => (s, [], [])
+    | i :: r =>
+        let '(s1, o1, m1) := item_A s caller i in
+        let '(s2, o2, m2) := tx_A s1 caller r in (s2, o1 :: o2, m1 ++ m2)
+    end.
+
+  Fixpoint tx_B (s : nstate) (caller : Z) (items : list titem) : nstate * list tobs :=
+    match items with
+    | [] => (s, [])
+    | i :: r =>
+        let '(s1, o1) := item_B s caller i in
+        let '(s2, o2) := tx_B s1 caller r in (s2, o1 :: o2)
+    end.
+
+  Definition tx_state_A (s : nstate) (caller : Z) (items : list titem) : nstate := fst (fst (tx_A s caller items)).
+  Definition tx_obs_A (s : nstate) (caller : Z) (items : list titem) : list tobs := snd (fst (tx_A s caller items)).
+  Definition tx_msgs_A (s : nstate) (caller : Z) (items : list titem) : list nmsg := snd (tx_A s caller items).
+
+  Definition obs_logs (o : tobs) : list log := match o with TCall _ l => l | TView _ => [] end.
+
   (* ---------------------------------------------------------------- histories, twin chains *)
-  (* a precompile call reached from a transaction of [sender] through [path]; a native message submitted directly;
-     anything else that happens identically on both chains (block progression, reward accrual, maturing entries) *)
+  (* a precompile call reached from a transaction of [sender] through [path]; a transaction in which the contract
+     reached through [path] makes several precompile calls, views among them; a native message submitted directly;
+     anything else that happens identically on both chains (block progression, reward accrual, deposits into rewards
+     pools, maturing entries) *)
   Inductive op :=
   | OCall (sender : Z) (path : list hop) (c : call)
+  | OTx (sender : Z) (path : list hop) (items : list titem)
   | ONative (m : nmsg)
   | OOther (f : nstate -> nstate).
 
@@ -333,6 +456,7 @@ Section Cpc.
     match o with
     | OCall sender path c =>
         match cpc_step s (precompile_caller sender path) c with Some (s', _, _, _) => s' | None => s end
+    | OTx sender path items => tx_state_A s (precompile_caller sender path) items
     | ONative m => match native_step s m with Some (s', _) => s' | None => s end
     | OOther f => f s
     end.
@@ -342,6 +466,7 @@ Section Cpc.
     match o with
     | OCall sender path c =>
         match native_prog s (precompile_caller sender path) c with Some (s', _, _) => s' | None => s end
+    | OTx sender path items => fst (tx_B s (precompile_caller sender path) items)
     | ONative m => match native_step s m with Some (s', _) => s' | None => s end
     | OOther f => f s
     end.
@@ -355,6 +480,7 @@ Section Cpc.
     match o with
     | OCall sender path c =>
         match cpc_step s (precompile_caller sender path) c with Some (_, logs, _, _) => logs | None => [] end
+    | OTx sender path items => flat_map obs_logs (tx_obs_A s (precompile_caller sender path) items)
     | _ => []
     end.
 
@@ -363,6 +489,7 @@ Section Cpc.
     | OCall sender path c =>
         let caller := precompile_caller sender path in
         match native_prog s caller c with Some (_, evs, _) => flat_map (logs_of_event caller) evs | None => [] end
+    | OTx sender path items => flat_map obs_logs (snd (tx_B s (precompile_caller sender path) items))
     | _ => []
     end.
 
@@ -382,31 +509,9 @@ Section Cpc.
          | OCall sender path c =>
              let caller := precompile_caller sender path in
              match cpc_step s caller c with Some (_, _, _, ms) => map (pair caller) ms | None => [] end
+         | OTx sender path items =>
+             let caller := precompile_caller sender path in map (pair caller) (tx_msgs_A s caller items)
          | _ => []
          end) ++ issued_A (step_A s o) r
-    end.
-
-  (* ---------------------------------------------------------------- views *)
-  (* a native query's answer: a number, the staking module's "no delegation" error, any other error *)
-  Variable q_delegation_tokens : nstate -> Z -> Z -> qres. (* GetDelegation + Validator.TokensFromShares(shares).TruncateInt() *)
-  Variable q_bonded_total : nstate -> Z -> qres.            (* GetDelegatorBonded *)
-  Variable q_reward : nstate -> Z -> Z -> qres.             (* distribution querier DelegationRewards, bond denom, truncated *)
-  Variable q_rewards_total : nstate -> Z -> qres.           (* distribution querier DelegationTotalRewards total, truncated *)
-
-  Inductive view := VDelegationOf (a v : Z) | VTotalDelegationOf (a : Z) | VRewardOf (a v : Z) | VRewardsOf (a : Z) | VBalanceOf (a : Z).
-
-  (* delegationOf and rewardOf answer 0 where the native query says "no delegation"; any other error fails the call *)
-  Definition zero_if_none (r : qres) : option Z :=
-    match r with QOk z => Some z | QNoDelegation => Some 0 | QErr => None end.
-  Definition strict (r : qres) : option Z := match r with QOk z => Some z | _ => None end.
-
-  (* None = the view call fails *)
-  Definition view_step (s : nstate) (w : view) : option Z :=
-    match w with
-    | VDelegationOf a v => zero_if_none (q_delegation_tokens s a v)
-    | VTotalDelegationOf a => strict (q_bonded_total s a)
-    | VRewardOf a v => zero_if_none (q_reward s a v)
-    | VRewardsOf a => strict (q_rewards_total s a)
-    | VBalanceOf a => option_map (Z.add (q_balance s a)) (strict (q_rewards_total s a))
     end.
 End Cpc.
